@@ -83,6 +83,48 @@ def roundtrip(chk: Check, g: graph.Graph, consts, rng, budget, tick):
     chk.note(f"round-trip with shipped pairs on {g.name} tick={tick}: {done} insert edges")
 
 
+def special_values_probe(chk: Check):
+    """The clauses of the list model on records that hold +-inf (what an EventReducer stores before the first event): on
+    the grid the stored observation is returned as it is; scalar-time and tensor-time calls agree element-wise; with
+    the previous / next / nearest rules an off-grid read returns the chosen bracketing sample.  (The graphs use finite
+    values only; a masked blend `exact * prev + ~exact * res` is then indistinguishable from a `where`.)"""
+    import torch
+    import inferno.functional as F
+    from inferno import Module, RecordTensor
+    inf = float("inf")
+    n = 0
+    for dtype in (torch.float32, torch.float64):
+        for hist in ([1.0, inf, 3.0, -inf], [inf, inf, 2.0, 5.0], [-inf, 4.0, inf, 7.0]):
+            m = Module()
+            RecordTensor.create(m, "rt", 1.0, 4.0, torch.zeros(2, dtype=dtype))
+            rt = m.rt
+            for v in hist:
+                rt.push(torch.tensor([v, -v], dtype=dtype))
+            newest_first = list(reversed(hist))
+            for name, fn, pick in (("previous", F.interp_previous, lambda k, f: k + 1), ("next", F.interp_next, lambda k, f: k),
+                                   ("nearest", F.interp_nearest, lambda k, f: (k + 1) if f > 0.5 else k)):
+                for t in (0.0, 1.0, 2.0, 3.0, 0.25, 1.75, 2.75):
+                    k, f = int(t), t - int(t)
+                    idx = k if f == 0 else pick(k, f)
+                    want = torch.tensor([newest_first[idx], -newest_first[idx]], dtype=dtype)
+                    n += 1
+                    try:
+                        sc = rt.select(t, fn, tolerance=1e-6)
+                        tn = rt.select(torch.full((2,), t, dtype=dtype), fn, tolerance=1e-6)
+                    except Exception as ex:
+                        chk.violation({"clause": "Raised", "site": "special-values", "interp": name, "exc": type(ex).__name__},
+                                      {"time": t, "history": [str(v) for v in hist], "error": repr(ex)})
+                        continue
+                    if not (torch.equal(sc, want) and torch.equal(tn, want)):
+                        chk.violation({"clause": "ScalarTensorAgree" if torch.equal(sc, want) else "OnGridOrBracket",
+                                       "site": "special-values", "interp": name, "on_grid": f == 0},
+                                      {"time": t, "history_newest_first": [str(v) for v in newest_first], "dtype": str(dtype),
+                                       "specified": [str(x) for x in want.tolist()], "scalar_time": [str(x) for x in sc.tolist()],
+                                       "tensor_time": [str(x) for x in tn.tolist()]})
+    chk.evaluations += n
+    chk.note(f"records holding +-inf: {n} select calls, scalar and tensor time, previous / next / nearest")
+
+
 def run(tier: str, seed: int) -> int:
     chk = Check(PID, tier, seed)
     rng = random.Random(seed)
@@ -132,6 +174,7 @@ def run(tier: str, seed: int) -> int:
         replay_graph(chk, gf, fine, budget=(None if tier == "thorough" else 9000), rng=rng, param=rng.random() < 0.5, tick=tick)
     roundtrip(chk, gf, fine, rng, 200 if tier == "quick" else 2000, 1.0 / FD)
 
+    special_values_probe(chk)
     canary_replay(chk, g, consts, rng)
     ntr = 120 if tier == "quick" else 2500
     traces = random_record_traces(rng, ntr, families=("time", "time", "basic"), steps=25)
